@@ -52,6 +52,7 @@ pub enum Ctor {
     /// Frame::new with `nsub` subframes of block size `sub_bs` / width `sub_bps` under a header of (bs, channels ch, bps)
     Frame { bs: usize, ch: u8, bps: usize, nsub: usize, sub_bs: usize, sub_bps: usize, side: bool },
     StreamInfo { rate: usize, ch: usize, bps: usize, min_bs: usize, max_bs: usize, min_fs: usize, max_fs: usize, total: usize },
+    StreamInfoBare { rate: usize, ch: usize, bps: usize },
     MetadataUnknown { tag: u8, len: usize },
 }
 
@@ -389,6 +390,20 @@ fn run_ctor(c: &Ctor) -> (String, Vec<(String, String)>) {
                 }
             }
         }
+        Ctor::StreamInfoBare { rate, ch, bps } => {
+            // the component exactly as the constructor returns it (documented default fields)
+            let si = built!(StreamInfo::new(*rate, *ch, *bps).map_err(|e| format!("{e:?}")));
+            if let Some((bytes, nb)) = post_common(&si, &mut post) {
+                let parsed = panicx::catch(|| parser::stream_info::<ByteErr>(&bytes[..]).map(|(rest, x)| ((bytes.len() - rest.len()) * 8, x)).map_err(short));
+                post_parse(&si, &bytes, nb, parsed, &mut post, |x| Some(format!("{x:?}")), |x| Some(format!("{x:?}")));
+            }
+            if let Ok(Ok(s)) = panicx::catch(|| Stream::new(*rate, *ch, *bps)) {
+                if let Some((sb, sn)) = post_common(&s, &mut post) {
+                    let parsed = panicx::catch(|| parser::stream::<ByteErr>(&sb[..]).map(|(rest, x)| ((sb.len() - rest.len()) * 8, x)).map_err(short));
+                    post_parse(&s, &sb, sn, parsed, &mut post, |x| Some(format!("{:?}", x.stream_info())), |x| Some(format!("{:?}", x.stream_info())));
+                }
+            }
+        }
         Ctor::MetadataUnknown { tag, len } => {
             let data: Vec<u8> = (0..*len).map(|i| (i % 251) as u8).collect();
             let m = built!(MetadataBlockData::new_unknown(*tag, &data).map_err(|e| format!("{e:?}")));
@@ -421,6 +436,7 @@ fn ctor_name(c: &Ctor) -> &'static str {
         Ctor::FrameHeader { .. } => "FrameHeader::new",
         Ctor::Frame { .. } => "Frame::new",
         Ctor::StreamInfo { .. } => "StreamInfo::new+setters",
+        Ctor::StreamInfoBare { .. } => "StreamInfo::new / Stream::new as returned",
         Ctor::MetadataUnknown { .. } => "MetadataBlockData::new_unknown",
     }
 }
@@ -552,6 +568,14 @@ pub fn probes() -> Vec<Ctor> {
                         v.push(Ctor::Frame { bs, ch, bps, nsub, sub_bs, sub_bps, side });
                     }
                 }
+            }
+        }
+    }
+    // StreamInfo::new / Stream::new as returned (no setter called)
+    for rate in [0usize, 1, 44100, 96000, 96001, 1 << 20] {
+        for ch in [0usize, 1, 2, 8, 9] {
+            for bps in [0usize, 7, 8, 9, 12, 16, 17, 20, 24, 25, 32] {
+                v.push(Ctor::StreamInfoBare { rate, ch, bps });
             }
         }
     }
